@@ -185,6 +185,26 @@ Theorem c14_transparent_partial : forall progs sched s,
 Proof. exact transparent_partial. Qed.
 Print Assumptions c14_transparent_partial.
 
+(* ---- 6. session plumbing (gorm.go DB.Session, finisher_api.go Begin/Transaction; C14_Plumb.v) --- *)
+(* whatever sessions (plain or PrepareStmt) are derived before or after it, a handle is inside the
+   transaction iff a Begin / Transaction block is among the steps: prepared-statement mode never
+   moves a statement out of (or into) a transaction ... *)
+Theorem c14_session_stays_in_transaction : forall base steps,
+  in_tx (pfinal base steps) = existsb is_begin steps.
+Proof. exact session_stays_in_transaction. Qed.
+Print Assumptions c14_session_stays_in_transaction.
+
+(* ... and once enabled (Open or any Session{PrepareStmt:true}) it stays enabled downstream *)
+Theorem c14_prepared_mode_is_sticky : forall base steps,
+  prepared (pfinal base steps) = base || existsb is_sessprep steps.
+Proof. exact prepared_mode_is_sticky. Qed.
+Print Assumptions c14_prepared_mode_is_sticky.
+
+(* the plumbing model satisfies the specification the checker evaluates on gorm's observations *)
+Theorem c14_plumbing_model_meets_spec : forall p, plumb_model_agrees p = true -> plumb_spec p = true.
+Proof. exact plumb_model_meets_spec. Qed.
+Print Assumptions c14_plumbing_model_meets_spec.
+
 (* ---- non-vacuity ------------------------------------------------------------------------------ *)
 (* the hypotheses of c14_leak_free_partial are met by a history with a failed Prepare AND an
    ErrBadConn eviction (each deleting its own entry) *)
